@@ -166,6 +166,10 @@ Definition request_rows (rep R : nat) (k : reqkind) (c : vcfg) (y : list Q) (sam
   | RGradient => perturbed_rows rep c y samples
   | RBoth => repeat y R ++ perturbed_rows rep c y samples
   end.
+(* a function request for a batch of points (2-D variables): np.repeat(variables, R, axis=0) *)
+Definition batch_rows (R : nat) (ys : list (list Q)) : list (list Q) := concat (map (fun y => repeat y R) ys).
+Definition batch_requests (R : nat) (ss os : list Q) (ys : list (list Q)) : list (list Q) :=
+  map (from_opt ss os) (batch_rows R ys).
 (* what the user's evaluator receives: every row mapped back with from_optimizer *)
 Definition requests (rep R : nat) (k : reqkind) (ss os : list Q) (c : vcfg) (y : list Q) samples : list (list Q) :=
   map (from_opt ss os) (request_rows rep R k c y samples).
